@@ -244,6 +244,60 @@ Example C10_unclosed_import_nonvacuous :
     (fun _ _ => true) n (EName pr_Grammar) 0 = Some (Fail, evs).
 Proof. exists 400%nat. eexists. vm_compute. reflexivity. Qed.
 
+(** after the package clause and any number of well-formed imports, a text that begins with neither `import` nor `type`
+    (nor layout, which the clause before it has consumed) is refused: a grammar whose parser type is missing - the rules
+    straight after the package clause -, a misspelt keyword, anything else (Reader/RejectImport.v). *)
+Theorem C10_rejects_missing_type :
+  forall penv hdr spkg pkg s1 imps rest,
+    header_ok hdr [112] -> lay spkg -> spkg <> [] -> ident_ok pkg = true -> lay s1 -> s1 <> [] ->
+    Forall imp_ok imps -> stop rest -> (forall r, rest <> kw_import ++ r) -> (forall r, rest <> kw_type ++ r) ->
+    exists n evs, peg_ev pegpeg_d pegpeg_d_ptx
+      (flat_map hshow hdr ++ kw_package ++ spkg ++ pkg ++ s1 ++ flat_map impshow imps ++ rest)
+      penv n (EName pr_Grammar) 0 = Some (Fail, evs).
+Proof.
+  intros penv hdr spkg pkg s1 imps rest H1 H2 H3 H4 H5 H6 H7 H8 H9 H10.
+  exact (grammar_rejects_missing_type _ penv hdr spkg pkg s1 imps rest H1 H2 H3 H4 H5 H6 H7 H8 H9 H10 eq_refl).
+Qed.
+Print Assumptions C10_rejects_missing_type.
+
+(** non-vacuity: "package p\n\nS <- 'a'\n" - the rules straight after the package clause *)
+Example C10_missing_type_nonvacuous :
+  exists n evs, peg_ev pegpeg_d pegpeg_d_ptx
+    ([] ++ kw_package ++ [32] ++ [112] ++ [10; 10] ++ [] ++ [83; 32; 60; 45; 32; 39; 97; 39; 10])
+    (fun _ _ => true) n (EName pr_Grammar) 0 = Some (Fail, evs).
+Proof. exists 200%nat. eexists. vm_compute. reflexivity. Qed.
+
+(** the parser type without its `Peg` keyword: after `type`, layout, a name and layout comes a text that does not begin with
+    `Peg` (Reader/RejectImport.v) *)
+Theorem C10_rejects_missing_Peg :
+  forall penv f rest, head_ok f -> stop rest -> (forall r, rest <> kw_Peg ++ r) ->
+  exists n evs, peg_ev pegpeg_d pegpeg_d_ptx (pre_text f ++ rest) penv n (EName pr_Grammar) 0 = Some (Fail, evs).
+Proof. intros penv f rest Hf Hs N. exact (grammar_rejects_missing_Peg _ penv f rest Hf Hs N eq_refl). Qed.
+Print Assumptions C10_rejects_missing_Peg.
+
+(** `import` followed by something that can start neither an import block nor an import name - single quotes, angle
+    brackets, a digit, the end of the text (Reader/RejectImport.v) *)
+Theorem C10_rejects_bad_import :
+  forall penv hdr spkg pkg s1 imps sp T,
+    header_ok hdr [112] -> lay spkg -> spkg <> [] -> ident_ok pkg = true -> lay s1 -> s1 <> [] ->
+    Forall imp_ok imps -> lay sp -> stop T ->
+    (forall c r, T = c :: r -> c <> 40 /\ is_istart c = false /\ c <> 34) ->
+    exists n evs, peg_ev pegpeg_d pegpeg_d_ptx
+      (flat_map hshow hdr ++ kw_package ++ spkg ++ pkg ++ s1 ++ flat_map impshow imps ++ kw_import ++ sp ++ T)
+      penv n (EName pr_Grammar) 0 = Some (Fail, evs).
+Proof.
+  intros penv hdr spkg pkg s1 imps sp T H1 H2 H3 H4 H5 H6 H7 H8 H9 H10.
+  exact (grammar_rejects_bad_import _ penv hdr spkg pkg s1 imps sp T H1 H2 H3 H4 H5 H6 H7 H8 H9 H10 eq_refl).
+Qed.
+Print Assumptions C10_rejects_bad_import.
+
+(** non-vacuity: "package p\n\nimport 'fmt'\n..." *)
+Example C10_bad_import_nonvacuous :
+  exists n evs, peg_ev pegpeg_d pegpeg_d_ptx
+    ([] ++ kw_package ++ [32] ++ [112] ++ [10; 10] ++ [] ++ kw_import ++ [32] ++ [39; 102; 109; 116; 39; 10; 116; 121; 112; 101; 32; 84; 32; 80; 101; 103; 32; 123; 125; 10; 83; 32; 60; 45; 32; 39; 97; 39; 10])
+    (fun _ _ => true) n (EName pr_Grammar) 0 = Some (Fail, evs).
+Proof. exists 200%nat. eexists. vm_compute. reflexivity. Qed.
+
 (** the lexical layer on its own: any layout is skipped; every spelling of a character is read as its call *)
 Theorem C10_reader_spacing :
   forall buf penv s rest p t, lay s -> stop rest -> At buf p (s ++ rest) ->
